@@ -624,7 +624,8 @@ class AASFromXmlDecoder:
         """
         _expect_reference_type(element, model.ModelReference)
         keys = cls._construct_key_tuple(element)
-        if keys and not issubclass(KEY_TYPES_CLASSES_INVERSE.get(keys[-1].type, type(None)), type_):
+        if keys and keys[-1].type in KEY_TYPES_CLASSES_INVERSE \
+                and not issubclass(KEY_TYPES_CLASSES_INVERSE[keys[-1].type], type_):
             logger.warning("type %s of last key of reference to %s does not match reference type %s",
                            keys[-1].type.name, " / ".join(str(k) for k in keys), type_.__name__)
         return object_class(keys, type_, _failsafe_construct(element.find(NS_AAS + "referredSemanticId"),
